@@ -539,7 +539,7 @@ Definition quoted_ok (s : bytes) : bool :=
   match s with
   | 34 :: r =>
     match rev r with
-    | 34 :: m => negb (existsb (fun b => b =? 34) m) && utf8_validb m
+    | 34 :: m => negb (existsb (fun b => b =? 34) m) && utf8_validb (rev m)
     | _ => false
     end
   | _ => false
